@@ -373,9 +373,8 @@ func (a *Accounts) SetLockStakeUntilBlock(address types.Address, h uint64) {
 
 func (a *Accounts) GetLockStakeUntilBlock(address types.Address) uint64 {
 	account := a.getOrNew(address)
-	account.lock.RLock()
-	defer account.lock.RUnlock()
 
+	// getLockStakeUntilBlock takes the account's read lock itself (a second, nested read lock deadlocks with a waiting writer)
 	return account.getLockStakeUntilBlock()
 }
 
